@@ -26,6 +26,7 @@ DEFAULT_PROFILE = dict(
     max_fields=5,
     logical=False,
     serial_field=False,   # first field "serial": long (unique per record)
+    wide=True,            # occasionally: enums / unions with >= 64 entries, fixed types beyond 8 KiB / 64 KiB
 )
 
 
@@ -137,13 +138,21 @@ class SchemaGen:
     def enum(self, ns):
         attrs, full, tns = self._new_name("enum", ns)
         nsym = 1 + self.ch.draw(len(SYMS))
-        s = dict(type="enum", symbols=SYMS[:nsym], **attrs)
+        syms = SYMS[:nsym]
+        if self.p["wide"] and self.ch.chance(3):
+            # wide enum: symbol positions whose zig-zag varint needs two bytes (>= 64) and more
+            syms = ["W%d" % i for i in range(self.ch.pick([64, 65, 128, 129, 200]))]
+            self.stats["wide_enum"] = self.stats.get("wide_enum", 0) + 1
+        s = dict(type="enum", symbols=syms, **attrs)
         self.defined.append((full, tns, "enum"))
         return s
 
     def fixed(self, ns):
         attrs, full, tns = self._new_name("fixed", ns)
         size = self.ch.pick([1, 0, 2, 4, 16, 3])
+        if self.p["wide"] and self.ch.chance(2):
+            size = self.ch.pick([8192, 8193, 10000, 70001])   # beyond one I/O chunk / 64 KiB
+            self.stats["large_fixed"] = self.stats.get("large_fixed", 0) + 1
         s = dict(type="fixed", size=size, **attrs)
         self.defined.append((full, tns, "fixed"))
         return s
@@ -199,6 +208,14 @@ class SchemaGen:
                     seen_named.add(r[1])
         if not out:
             out = ["null"]
+        if self.p["wide"] and ch.chance(2) and depth <= 1:
+            # wide union: branch positions >= 64 (two-byte index); each extra branch is a tiny record told
+            # apart by its only field name
+            self.stats["wide_union"] = self.stats.get("wide_union", 0) + 1
+            for _ in range(ch.pick([62, 70, 130])):
+                attrs, full, tns = self._new_name("record", ns)
+                out.append(dict(type="record", fields=[{"name": "w_" + attrs["name"].replace(".", "_"), "type": "int"}], **attrs))
+                self.defined.append((full, tns, "record"))
         return out
 
     def named(self, depth, ns):
